@@ -47,6 +47,9 @@ def run(tier, seed):
         p, src = genprog.gen_boundary_program(s)
         base.append(('boundary:%d' % s, src, ['-O1']))
         boundary[src] = p['outs'][0]['size']
+    for i in range(5 if quick else 30):
+        s = rng.randrange(1 << 30)
+        base.append(('life:%d' % s, genprog.gen_lifecycle_program(s)[1], [rng.choice(['-O1', '-O2', '-O3'])]))
     items = []
     for i, (name, src, args) in enumerate(base):
         for k, st in enumerate(STORAGE):
